@@ -34,6 +34,8 @@ type State struct {
 	Lease  map[string]M     `json:"lease"`
 	Prov   map[string]M     `json:"prov"`
 	Attest map[string]M     `json:"attest"`
+	// balances in the foreign denomination, by party: not part of the abstract state (recorded next to it in the step)
+	Foreign map[string]int64 `json:"-"`
 }
 
 func amt(c sdk.Coin) (int64, error) {
@@ -140,8 +142,21 @@ func (w *World) Project(ctx sdk.Context) (*State, error) {
 	}
 	s.Bank["escrow"] = 0
 	var perr error
+	s.Foreign = map[string]int64{}
 	k.Bank.IterateAllBalances(ctx, func(addr sdk.AccAddress, c sdk.Coin) bool {
 		if c.IsZero() {
+			return false
+		}
+		if c.Denom == ForeignDenom && w.Cfg.ForeignCoins > 0 && c.Amount.IsInt64() {
+			n := "escrow"
+			if !addr.Equals(escrowAddr) {
+				var err error
+				if n, err = w.Name(addr.String()); err != nil {
+					perr = fmt.Errorf("coins at unexpected address: %v", err)
+					return true
+				}
+			}
+			s.Foreign[n] += c.Amount.Int64()
 			return false
 		}
 		v, err := amt(c)
@@ -404,4 +419,3 @@ func (w *World) GenesisOK(ctx sdk.Context) (ok bool, msg string) {
 	}
 	return true, ""
 }
-
